@@ -941,7 +941,13 @@ class Interp:
         st.setarr("dhas", z3.Store(st.arr("dhas"), r, z3.Store(has, k.t, True)))
         st.setarr("dget", z3.Store(st.arr("dget"), r, z3.Store(z3.Select(st.arr("dget"), r), k.t, v.t)))
         if d.ty.k == "dict" and isinstance(d.c, tuple) and d.c[0] == "newdict":
-            d.ty = T.DICT(T.join(d.ty.a[0], k.ty) if d.ty.a[0].k != "any" else k.ty, T.join(d.ty.a[1], v.ty) if d.ty.a[1].k != "any" else v.ty)
+            # the hint of a dict display is the join of its entries' hints; "no entry yet" must not be confused with a
+            # join that already widened to `any` (a later entry would narrow it again and typing assumptions on reads
+            # of earlier entries would be contradictory -- vacuous proofs)
+            first = len(d.c) == 1
+            d.c = ("newdict", "seen")
+            d.ty = T.DICT(k.ty if first and d.ty.a[0].k == "any" else T.join(d.ty.a[0], k.ty),
+                          v.ty if first and d.ty.a[1].k == "any" else T.join(d.ty.a[1], v.ty))
 
     def assume_dict_wf(self, d: SV):
         """Data-structure invariant of Python dicts/sets in the (keys sequence, membership) model: the first `size`
@@ -1406,6 +1412,9 @@ class Interp:
             raise Refuse(f"attribute {attr} of tuple")
         if isinstance(base, (PFunc, PBound)):
             raise Refuse(f"attribute {attr} of function")
+        if type(base).__name__ == "PKwargs" and attr == "get":
+            from .calls import PKwGet
+            return PKwGet(base)
         if not isinstance(base, SV):
             raise Refuse(f"attribute {attr} of {type(base).__name__}")
         ty = base.ty
